@@ -4,7 +4,7 @@
 // daemons reached over real libp2p streams, and prints one case line per add:
 //
 //   C13 mode= local= route= src= fmt= opts= allocs= afail= pfail= faults= chunker= layout= raw= cidv= hash= wrap= hidden= tree=
-//     => res= stream= failed= lost= fin= log= nodes= cl= rb= rp= ri= referr= req=
+//     => res= stream= failed= lost= fin= log= nodes= cl= rb= rp= ri= referr= req= dag= files=
 //
 // Everything after "=>" is observed: the block stream handed to the DAG
 // service (id:rawsize, ids by first appearance), the ordered log of
@@ -959,9 +959,11 @@ func run(ctx context.Context, c tcase) string {
 	success := main.res == "ok"
 	var clOK, rbOK, rpOK, riOK bool
 	rpKnown := false
+	dagTok, filesTok := "-", "-"
 	if success {
 		del := &mapDAG{m: main.st.stored, verify: true}
 		clOK, _ = closure(ctx, del, main.root)
+		dagTok, filesTok = dumpDAG(ctx, del, main.root, nm)
 		if refErr == nil {
 			rbOK = readback(ctx, del, main.root, what)
 			riOK = main.root.Equals(refRoot)
@@ -1018,10 +1020,10 @@ func run(ctx context.Context, c tcase) string {
 			tri3(tsucc && refErr == nil, tri), b01(importerFails))
 	}
 
-	return fmt.Sprintf("res=%s stream=%s failed=%s lost=%s fin=%s log=%s nodes=%s cl=%s rb=%s rp=%s ri=%s referr=%s req=%s",
+	return fmt.Sprintf("res=%s stream=%s failed=%s lost=%s fin=%s log=%s nodes=%s cl=%s rb=%s rp=%s ri=%s referr=%s req=%s dag=%s files=%s",
 		resTok, streamTok, common.Ints(rec.failed), lostTok(ctx, rec, refDS), finTok, logTok, nodesTok,
 		tri(success, clOK), tri(success && refErr == nil, rbOK), tri(success && rpKnown, rpOK), tri(success && refErr == nil, riOK),
-		b01(importerFails), reqTok) + twinLine
+		b01(importerFails), reqTok, dagTok, filesTok) + twinLine
 }
 
 func tri3(known bool, v bool) string { return tri(known, v) }
